@@ -344,6 +344,11 @@ CURATED_CONFLICT = [
     ("ternary-right", "e = e Q e C e @right(1) | e P e @left(2) | N"),
     ("postfix", "e = e P @left(3) | M e @left(2) | e A e @left(1) | N"),
     ("same-level-mixed-shifts", "e = e P e @left(1) | e P P e @left(2) | N"),
+    # conflicts that involve the accept action (the start rule is left-recursive with a nullable tail / is a unit cycle)
+    ("accept-reduce-unit-cycle", "s = s | A"),
+    ("accept-reduce-nullable-tail", "s = s S? | I"),
+    ("accept-reduce-qualified", "s = s n @left(1) | I @left(2)\nn = @empty"),
+    ("accept-shift", "s = s A | s | B"),
     ("shift-two-levels", "e = e P N @left(1) | e P M @left(3) | e Q e @left(2) | N | M"),
 ]
 
